@@ -811,3 +811,80 @@ func (c pathClass) onlyVia(g *FG, edges []Edge, n int) bool {
 	}
 	return !g.reach(c.starts, nil, cut)[n]
 }
+
+// retCase is one way a function returns: a Return instruction, or — when the function has a single
+// exit whose results are phis of the exit block — one incoming edge of that block with the values the
+// phis take on it. Rules that reason per `return x, true` / `return y, false` see the same cases
+// whether the source has several returns or one.
+type retCase struct {
+	res []ssa.Value
+	x   int   // the Return node
+	via *Edge // the edge into the exit block that selects this case (nil: the Return itself)
+}
+
+func (g *FG) retCases() []retCase {
+	var out []retCase
+	for _, x := range g.returns {
+		ret := g.ins[x].(*ssa.Return)
+		b := ret.Block()
+		split := false
+		for _, rv := range ret.Results {
+			if ph, ok := rv.(*ssa.Phi); ok && ph.Block() == b && len(ph.Edges) == len(b.Preds) {
+				split = true
+			}
+		}
+		if !split {
+			out = append(out, retCase{res: ret.Results, x: x})
+			continue
+		}
+		for j, p := range b.Preds {
+			var res []ssa.Value
+			for _, rv := range ret.Results {
+				if ph, ok := rv.(*ssa.Phi); ok && ph.Block() == b && len(ph.Edges) == len(b.Preds) {
+					res = append(res, ph.Edges[j])
+				} else {
+					res = append(res, rv)
+				}
+			}
+			from := g.first[p] + len(p.Instrs) - 1
+			e := Edge{from, g.first[b]}
+			out = append(out, retCase{res: res, x: x, via: &e})
+		}
+	}
+	return out
+}
+
+// onlyVia: every path to this return case crosses one of the edges.
+func (rc retCase) onlyVia(g *FG, edges []Edge) bool {
+	if rc.via == nil {
+		return g.OnlyVia(edges, rc.x)
+	}
+	for _, e := range edges {
+		if e == *rc.via {
+			return true
+		}
+	}
+	return g.OnlyVia(edges, rc.via.from)
+}
+
+// before: every path to this return case passes one of the A nodes.
+func (rc retCase) before(g *FG, A []bool) bool {
+	if rc.via == nil {
+		return g.Before(A, rc.x)
+	}
+	return A[rc.via.from] || g.Before(A, rc.via.from)
+}
+
+// reachedFrom: the case can be reached from one of the edges.
+func (rc retCase) reachedFrom(g *FG, edges []Edge) bool {
+	rr := reachFromEdges(g, edges, nil)
+	if rc.via == nil {
+		return rr[rc.x]
+	}
+	for _, e := range edges {
+		if e == *rc.via {
+			return true
+		}
+	}
+	return rr[rc.via.from]
+}
